@@ -5,6 +5,7 @@ mod alpha;
 mod dd;
 mod engine;
 mod heap;
+mod incref;
 mod oracle;
 mod props;
 mod refm;
